@@ -91,6 +91,15 @@ def gen_names(rnd, routes, n):
                 # near miss: a character that is 'k' only under Unicode case folding, in place of a 'k' of the suffix
                 pre = rnd.choice(["", "www.", "a.b."])
                 nm = pre + base_s.replace("k", "\u212a", 1)
+        elif roll < 0.38 and base_s:
+            # near miss: a dot that is an octet INSIDE a label ("\x1f" here, see dnslib.enc_name), so that the name's text ends
+            # with the suffix although its labels do not: the whole name as one label, or the suffix's first label glued to the
+            # label before it
+            sl = base_s.split(".")
+            if rnd.random() < 0.5:
+                nm = rnd.choice(["a", "www", "x"]) + "\x1f" + "\x1f".join(sl)
+            else:
+                nm = rnd.choice(["", "deep."]) + rnd.choice(["a", "www"]) + "\x1f" + ".".join(sl)
         elif roll < 0.4:
             nm = ".".join(rnd.choice(["a", "b", "www", "deep", "example", "test", "corp"]) for _ in range(rnd.randint(1, 6)))
         else:
@@ -110,7 +119,7 @@ def main():
         "route tables (1..6 routes, 0..4 suffixes each from nested/sibling/empty/near-miss suffixes, no suffix in two routes), each "
         "served by its own erbium-dns instance in its written form and in permuted forms (route order, suffix order, suffix case), one "
         "scripted upstream per forward route on its own loopback address; query names of 0..7 labels in random case incl. the suffixes "
-        "themselves and near misses; outcome compared with the longest-suffix model: forwarded to exactly that route's upstream (and only "
+        "themselves and near misses (a prefix glued on, U+212A for k, a '.' octet inside a label so that only the text ends with the suffix); outcome compared with the longest-suffix model: forwarded to exactly that route's upstream (and only "
         "with RD), NXDOMAIN without any upstream transmission under forge-nxdomain, SERVFAIL without a route; identical across "
         "permutations; plus one table of three nested forward routes whose upstreams give cacheable answers and name errors (SOA, TTL 300) asked in an order that puts ancestors first; distinct = (expected action, suffix depth, name case, permuted, outcome)", floor=100)
     d = base.scratch_dir("c15")
@@ -163,7 +172,7 @@ def main():
                         time.sleep(0.002)
                         saw = []
                         for i, u in enumerate(ups):
-                            new = [e for e in u.events[marks[i]:] if e["kind"] == "query" and ascii_lower(e.get("qname") or "") == ascii_lower(qname.encode().decode("latin1"))]
+                            new = [e for e in u.events[marks[i]:] if e["kind"] == "query" and ascii_lower(e.get("qname") or "") == ascii_lower(qname.replace("\x1f", ".").encode().decode("latin1"))]
                             if new:
                                 saw.append(i + 1)
                         want = model(routes, qname)
